@@ -20,6 +20,8 @@ def build(tier, seed):
         for name, n, rows in fam:
             r = len(rows)
             for lim in limits:
+                if tier == "quick" and lim >= 2 and name in ("stair3x5", "deg1w4_3x4"):
+                    continue  # 170-330 s each locally, one hit the 400 s cap on the reference machine: thorough tier
                 hn = "c03_%s_%s_l%d" % (sched, name, lim)
                 unw = max(n, r, lim, 8) + 3
                 w = 1.0 + lim * sum(len(x) for x in rows)
@@ -37,4 +39,4 @@ def build(tier, seed):
         "stubs": [],
         "assumptions": ["reference schedules in harness/src/refmodels.rs (dense, index-based) are the textbook ones"],
     }
-    return {"prelude": PRELUDE + families.rust_defs(fam), "items": items, "meta": meta, "nshards": 12, "timeout": 400 if tier == "quick" else 1800}
+    return {"prelude": PRELUDE + families.rust_defs(fam), "items": items, "meta": meta, "nshards": 14, "timeout": 700 if tier == "quick" else 3600}
